@@ -135,7 +135,28 @@ def check(res, tier):
         res.evaluations += 3
         if len(set(outs)) != 1:
             res.violation("behaviour:" + it[0], "executables built from the same sources behave differently", {"files": it[1], "runs": outs})
-    res.extra.update({"inputs": len(ins), "in_process_repetitions": n_in, "fresh_process_rounds": len(runs) - 1, "unstable_inputs": unstable,
+    # module graphs whose initialisers depend on each other (the generator of C10), each built several times
+    from . import C10
+    graph_rng = Rng(seed() + 1600)
+    cases = [C10.gen_case(graph_rng, i % 2 == 1) for i in range(10 if tier == "quick" else 80)]
+    reps = 6 if tier == "quick" else 12
+    jobs, owner = [], []
+    for ci, case in enumerate(cases):
+        # any order serves as expectation here: only the agreement of the builds is judged
+        files, _ = C10.build_program(case, lambda done, m: [] if m in done else [m])
+        for _ in range(reps):
+            jobs.append((files, pipeline.Config(opt=1), {}))
+            owner.append(ci)
+    gouts = pipeline.farm(ddp, jobs)
+    for ci, case in enumerate(cases):
+        rs = [(r.cls, r.stdout, r.exit) for r, o in zip(gouts, owner) if o == ci]
+        res.evaluations += len(rs)
+        res.nontrivial("graph:%d:%s" % (case[0], case[4]))
+        if len(set(rs)) != 1:
+            files, _ = C10.build_program(case, lambda done, m: [] if m in done else [m])
+            res.violation("behaviour:module-graph:%d" % ci, "executables built from the same module graph behave differently from build to build (%d distinct behaviours in %d builds)" % (len(set(rs)), len(rs)),
+                          {"files": files, "program": files["main.ddp"], "runs": [list(x) for x in sorted(set(rs))][:4]})
+    res.extra.update({"inputs": len(ins), "in_process_repetitions": n_in, "module_graphs_built_repeatedly": len(cases), "builds_per_graph": reps, "fresh_process_rounds": len(runs) - 1, "unstable_inputs": unstable,
                       "order_sites": len(json.load(open(os.path.join(leanproj.LEAN, "DDP", "Generated", "OrderSites.json"))))})
     res.rule = ("crafted inputs that put >=2 candidates at every classified site (several ill-typed/undeclared arguments, struct literal "
                 "fields, un-unifiable generic fields, colliding imported names at decreasing columns, diamond imports, equal-rank aliases, "
